@@ -43,7 +43,7 @@ BUDGET = {
     "thorough": {"C09": (30000, 18000), "C14": (100000, 20000), "C15": (80000, 20000),
                  "C03": (72000, 20000), "C04": (72000, 24000), "C12": (72000, 20000)},
 }
-WALL_CAP = {"quick": 600, "thorough": 4 * 3600}
+WALL_CAP = {"quick": 1500, "thorough": 4 * 3600}
 DEFAULT_SEED = {"quick": 20260923, "thorough": 7}
 
 # reach probes that a batch of this property is expected to hit (a probe stuck at
